@@ -184,10 +184,99 @@ def partial_io_rule(ctx, crates, pid, scope=None, floor=5):
                             "a short %s is accepted as complete: only a prefix of the data is %s" % (what, "written (and a valid but truncated stream is produced)" if what == "write" else "consumed"))
 
 
+def never_expands_rule(ctx, mpq, pid):
+    """(shared by C03, C01 and C02) the stored form of a block is the compressed one only when that is strictly shorter, method byte
+    included — readers tell a compressed block from a raw one by its size alone"""
+    R_exp = ctx.rule("%s.never-expands" % pid, "compress returns method-byte + compressed only under a strict `1 + |c| < |d|` guard; all other returns copy the input", floor=2)
+    fns = {norm(f.path): f for f in mpq.fn_list if f.kind != "Closure" and f.hir}
+    comp = fns.get(C + "compress::compress")
+    if comp is None:
+        ctx.bad(R_exp, "compress|missing", "-", "function not found", "anchor gone")
+    else:
+        ctx.saw_fn(comp)
+        body = comp.hir["body"]
+        inline = make_inliner(body)
+        ifs = []
+        for n in hirq.find(body, "if"):
+            c_in = inline(n["c"])
+            if "len()" in hirq.render(c_in) and "compress" in hirq.render(c_in):
+                m_ = dict(n)
+                m_["c"] = c_in
+                ifs.append(m_)
+        if not ifs:
+            ctx.bad(R_exp, "compress|no-guard", comp.where, "no size comparison guards the choice between raw and compressed", "the stored form can be longer than the input")
+        for n in ifs:
+            # the guard is a boolean formula over one size comparison (stored vs original) and other atoms (e.g. "the decoder would
+            # accept it"): evaluate it for stored <,=,> original and every valuation of the other atoms; the arm that is not a plain
+            # copy may only be reached when stored < original, the method byte counted
+            size_atoms, free_atoms = [], []
+
+            def collect(c):
+                c = hirq.strip(c)
+                if c.get("k") == "bin" and c["op"] in ("||", "&&"):
+                    collect(c["l"])
+                    collect(c["r"])
+                elif c.get("k") == "un" and c.get("op") == "Not":
+                    collect(c["e"])
+                elif len(cmpeval.atoms(c)) == 2 and any(".len()" in a for a in cmpeval.atoms(c)) and any("compress" in a for a in cmpeval.atoms(c)):
+                    size_atoms.append(c)
+                else:
+                    free_atoms.append(hirq.render(c))
+            collect(n["c"])
+            if not size_atoms:
+                ctx.bad(R_exp, "compress|guard-shape", "%s:%d" % (comp.file, n["ln"]), "guard `%s` has no two-sided size comparison" % hirq.render(n["c"]), "cannot establish the strict-shrink rule")
+                continue
+            d = size_atoms[0]
+            ats = cmpeval.atoms(d)
+            stored = next((a for a in ats if "compress" in a), None)
+            orig = next((a for a in ats if a != stored), None)
+            tts = {hirq.render(x): cmpeval.truth_table(x, next((a for a in cmpeval.atoms(x) if "compress" in a), None), next((a for a in cmpeval.atoms(x) if "compress" not in a), None)) for x in size_atoms}
+            tt = tts[hirq.render(d)]
+
+            def ev(c, rel, val):
+                c = hirq.strip(c)
+                if c.get("k") == "bin" and c["op"] == "||":
+                    return ev(c["l"], rel, val) or ev(c["r"], rel, val)
+                if c.get("k") == "bin" and c["op"] == "&&":
+                    return ev(c["l"], rel, val) and ev(c["r"], rel, val)
+                if c.get("k") == "un" and c.get("op") == "Not":
+                    return not ev(c["e"], rel, val)
+                r_ = hirq.render(c)
+                return tts[r_][rel] if r_ in tts else val[r_]
+            then_raw = "to_vec" in hirq.render(n["then"]) and "push" not in hirq.render(n["then"])
+            else_raw = n.get("else") is not None and "to_vec" in hirq.render(n["else"]) and "push" not in hirq.render(n["else"])
+            has_byte = all(bool(re.search(r"\(1 \+ |\+ 1\)", next((a for a in cmpeval.atoms(x) if "compress" in a), ""))) for x in size_atoms)
+            frees = sorted(set(free_atoms))
+            wrong, reach = [], False
+            for rel in ("lt", "eq", "gt"):
+                for bits in range(1 << len(frees)):
+                    val = {f_: bool(bits >> i & 1) for i, f_ in enumerate(frees)}
+                    g = ev(n["c"], rel, val)
+                    raw = then_raw if g else else_raw
+                    if not raw:
+                        reach = reach or rel == "lt"
+                        if rel != "lt":
+                            wrong.append((rel, val))
+            key = "compress|store-raw-guard"
+            where = "%s:%d" % (comp.file, n["ln"])
+            if (then_raw or else_raw) and not wrong and reach and has_byte:
+                ctx.ok(R_exp, {"guard": hirq.render(n["c"])[:160], "size_comparison": hirq.render(d), "table": tt, "raw_arm": "then" if then_raw else "else", "other_atoms": len(frees)})
+            else:
+                ctx.bad(R_exp, key, where, "guard `%s` has table {lt:%s, eq:%s, gt:%s} over (stored=%s, original=%s); raw arm: %s; method byte counted: %s; prefixed form reached with stored %s original" % (
+                    hirq.render(d), tt["lt"], tt["eq"], tt["gt"], stored, orig, "then" if then_raw else "else" if else_raw else "none", has_byte, sorted({w[0] for w in wrong}) or ("never <" if not reach else "<")),
+                        "a block that does not shrink is stored compressed: the stored form is as long as or longer than the input, and readers that test `stored < original` misread it as raw")
+        # every return is either raw copy or the guarded prefixed form
+        rets = [hirq.render(c) for c in hirq.walk(body) if c.get("k") == "call" and (c.get("fn") or "").endswith("Result::Ok")]
+        prefixed = [r for r in rets if "to_vec" not in r]
+        if len(prefixed) <= 1:
+            ctx.ok(R_exp, {"returns": rets})
+        else:
+            ctx.bad(R_exp, "compress|extra-return", comp.where, "more than one non-copy return: %s" % prefixed, "an unguarded return can expand the data")
+
+
 def run(ctx):
     prog = ctx.prog
     mpq = prog.crate("wow_mpq")
-    R_exp = ctx.rule("C03.never-expands", "compress returns method-byte + compressed only under a strict `1 + |c| < |d|` guard; all other returns copy the input", floor=2)
     R_disp = ctx.rule("C03.dispatch-symmetric", "each CompressionMethod variant uses the same algorithm module for compression and decompression", floor=10)
     R_multi = ctx.rule("C03.multi-method-order-reversed", "combined methods: ADPCM stage first on compress / last on decompress; compressor's second-stage set ⊆ decompressor's", floor=2)
     R_val = ctx.rule("C03.decoded-size-validated", "every non-passthrough success path of decompress_with_monitor passes validate_decompression_result", floor=1)
@@ -318,91 +407,34 @@ def run(ctx):
                         "`%s` is given the bound `%s` but fails unless its output is exactly that long (`%s`)" % ("::".join((c_.get("fn") or "").split("::")[-2:]), hirq.render(args[bi])[:30], hirq.render(exact["c"])[:50]),
                         "every block of that method combination is refused by the decompressor although the compressor produces it")
 
+    # the limits a block must respect are the ones security::validate_* states, and the compressor checks its output against those
+    # before emitting it.  A decoder that configures a limit of its own into the library it calls (a memory / output cap in an options
+    # struct) refuses blocks the compressor was allowed to write.
+    R_own = ctx.rule("C03.decoders-configure-no-limit-of-their-own", "no decoder in compression::algorithms calls a third-party decoder through an options value that sets a limit field (memlimit / max_* / *_limit) to Some(..) or a constant", floor=5)
+    for f in mpq.fn_list:
+        if not f.hir or f.kind == "Closure" or not re.search(r"compression::algorithms::\w+::decompress", f.path):
+            continue
+        ext = [c_ for c_ in hirq.walk(f.hir["body"]) if c_.get("k") in ("call", "mcall") and re.match(r"(lzma_rs|flate2|bzip2|pklib|implode|explode)", c_.get("fn") or "")]
+        if not ext:
+            continue
+        ctx.saw_fn(f)
+        lim = None
+        for n in hirq.walk(f.hir["body"]):
+            if n.get("k") != "struct":
+                continue
+            for nm, e in n.get("fields") or []:
+                if re.search(r"limit|^max_|_max$", nm) and not re.fullmatch(r"(core::option::)?(Option::)?None", hirq.render(e).strip()):
+                    lim = (nm, hirq.render(e)[:40], (e or {}).get("ln") or n.get("ln") or 0)
+        inst = {"decoder": f.path.split("algorithms::")[1], "calls": sorted({(c_.get("fn") or "").split("<")[0] for c_ in ext})[:3]}
+        if lim is None:
+            ctx.ok(R_own, inst)
+        else:
+            ctx.bad(R_own, "%s|own-limit|%s" % (f.path.split("algorithms::")[1], lim[0]), "%s:%d" % (f.file, lim[2]), "the decoder sets `%s: %s` on the library decoder it calls" % (lim[0], lim[1]),
+                    "the compressor validates its output against security::validate_* only: blocks it emits within those limits but beyond this private one are refused when read back (for LZMA the window grows with the output: every block larger than the cap)")
+
+    never_expands_rule(ctx, mpq, "C03")
     fns = {norm(f.path): f for f in mpq.fn_list if f.kind != "Closure" and f.hir}
     comp = fns.get(C + "compress::compress")
-    if comp is None:
-        ctx.bad(R_exp, "compress|missing", "-", "function not found", "anchor gone")
-    else:
-        ctx.saw_fn(comp)
-        body = comp.hir["body"]
-        inline = make_inliner(body)
-        ifs = []
-        for n in hirq.find(body, "if"):
-            c_in = inline(n["c"])
-            if "len()" in hirq.render(c_in) and "compress" in hirq.render(c_in):
-                m_ = dict(n)
-                m_["c"] = c_in
-                ifs.append(m_)
-        if not ifs:
-            ctx.bad(R_exp, "compress|no-guard", comp.where, "no size comparison guards the choice between raw and compressed", "the stored form can be longer than the input")
-        for n in ifs:
-            # the guard is a boolean formula over one size comparison (stored vs original) and other atoms (e.g. "the decoder would
-            # accept it"): evaluate it for stored <,=,> original and every valuation of the other atoms; the arm that is not a plain
-            # copy may only be reached when stored < original, the method byte counted
-            size_atoms, free_atoms = [], []
-
-            def collect(c):
-                c = hirq.strip(c)
-                if c.get("k") == "bin" and c["op"] in ("||", "&&"):
-                    collect(c["l"])
-                    collect(c["r"])
-                elif c.get("k") == "un" and c.get("op") == "Not":
-                    collect(c["e"])
-                elif len(cmpeval.atoms(c)) == 2 and any(".len()" in a for a in cmpeval.atoms(c)) and any("compress" in a for a in cmpeval.atoms(c)):
-                    size_atoms.append(c)
-                else:
-                    free_atoms.append(hirq.render(c))
-            collect(n["c"])
-            if not size_atoms:
-                ctx.bad(R_exp, "compress|guard-shape", "%s:%d" % (comp.file, n["ln"]), "guard `%s` has no two-sided size comparison" % hirq.render(n["c"]), "cannot establish the strict-shrink rule")
-                continue
-            d = size_atoms[0]
-            ats = cmpeval.atoms(d)
-            stored = next((a for a in ats if "compress" in a), None)
-            orig = next((a for a in ats if a != stored), None)
-            tts = {hirq.render(x): cmpeval.truth_table(x, next((a for a in cmpeval.atoms(x) if "compress" in a), None), next((a for a in cmpeval.atoms(x) if "compress" not in a), None)) for x in size_atoms}
-            tt = tts[hirq.render(d)]
-
-            def ev(c, rel, val):
-                c = hirq.strip(c)
-                if c.get("k") == "bin" and c["op"] == "||":
-                    return ev(c["l"], rel, val) or ev(c["r"], rel, val)
-                if c.get("k") == "bin" and c["op"] == "&&":
-                    return ev(c["l"], rel, val) and ev(c["r"], rel, val)
-                if c.get("k") == "un" and c.get("op") == "Not":
-                    return not ev(c["e"], rel, val)
-                r_ = hirq.render(c)
-                return tts[r_][rel] if r_ in tts else val[r_]
-            then_raw = "to_vec" in hirq.render(n["then"]) and "push" not in hirq.render(n["then"])
-            else_raw = n.get("else") is not None and "to_vec" in hirq.render(n["else"]) and "push" not in hirq.render(n["else"])
-            has_byte = all(bool(re.search(r"\(1 \+ |\+ 1\)", next((a for a in cmpeval.atoms(x) if "compress" in a), ""))) for x in size_atoms)
-            frees = sorted(set(free_atoms))
-            wrong, reach = [], False
-            for rel in ("lt", "eq", "gt"):
-                for bits in range(1 << len(frees)):
-                    val = {f_: bool(bits >> i & 1) for i, f_ in enumerate(frees)}
-                    g = ev(n["c"], rel, val)
-                    raw = then_raw if g else else_raw
-                    if not raw:
-                        reach = reach or rel == "lt"
-                        if rel != "lt":
-                            wrong.append((rel, val))
-            key = "compress|store-raw-guard"
-            where = "%s:%d" % (comp.file, n["ln"])
-            if (then_raw or else_raw) and not wrong and reach and has_byte:
-                ctx.ok(R_exp, {"guard": hirq.render(n["c"])[:160], "size_comparison": hirq.render(d), "table": tt, "raw_arm": "then" if then_raw else "else", "other_atoms": len(frees)})
-            else:
-                ctx.bad(R_exp, key, where, "guard `%s` has table {lt:%s, eq:%s, gt:%s} over (stored=%s, original=%s); raw arm: %s; method byte counted: %s; prefixed form reached with stored %s original" % (
-                    hirq.render(d), tt["lt"], tt["eq"], tt["gt"], stored, orig, "then" if then_raw else "else" if else_raw else "none", has_byte, sorted({w[0] for w in wrong}) or ("never <" if not reach else "<")),
-                        "a block that does not shrink is stored compressed: the stored form is as long as or longer than the input, and readers that test `stored < original` misread it as raw")
-        # every return is either raw copy or the guarded prefixed form
-        rets = [hirq.render(c) for c in hirq.walk(body) if c.get("k") == "call" and (c.get("fn") or "").endswith("Result::Ok")]
-        prefixed = [r for r in rets if "to_vec" not in r]
-        if len(prefixed) <= 1:
-            ctx.ok(R_exp, {"returns": rets})
-        else:
-            ctx.bad(R_exp, "compress|extra-return", comp.where, "more than one non-copy return: %s" % prefixed, "an unguarded return can expand the data")
-
     ci = fns.get(C + "compress::compress_internal")
     dm = fns.get(C + "decompress::decompress_with_monitor")
     if ci is None or dm is None:
